@@ -4,6 +4,7 @@ import (
 	"encoding/json"
 	"fmt"
 	"reflect"
+	"strings"
 
 	gpb "github.com/openconfig/gnmi/proto/gnmi"
 	"github.com/openconfig/ygot/ytypes"
@@ -33,6 +34,13 @@ func c10Check(p *core.Pkg, atoms []*core.Atom, a *core.Atom, enc string) (string
 	t, err := p.Build(atoms)
 	if err != nil {
 		return "", ""
+	}
+	if strings.HasSuffix(enc, "+shared") {
+		// equal leaves share one variable (user code filling entries from a template): see core.ShareLeafPointers
+		enc = strings.TrimSuffix(enc, "+shared")
+		if core.ShareLeafPointers(t) == 0 {
+			return "", "excluded-nothing-to-share"
+		}
 	}
 	exp, err := p.Build(append(append([]*core.Atom{}, atoms...), a))
 	if err != nil {
@@ -141,6 +149,38 @@ func runC10(c *core.Ctx) {
 				}
 			}
 		})
+		// shared leaf variables: every k<=2 focused state in which two leaves of one type hold equal values,
+		// the leaves made to share one variable; every leaf of the state is overwritten with every OTHER value
+		{
+			foc := core.FocusAtoms(p.Atoms())
+			sp2 := core.Explore(p, foc, 2)
+			c.R.Add("states", int64(len(sp2.States)))
+			core.ParallelFor(len(sp2.States), func(i int) {
+				st := sp2.States[i]
+				atoms := sp2.SeqAtoms(st)
+				for _, in := range atoms {
+					if in.Kind != "leaf" {
+						continue
+					}
+					for _, a := range sets {
+						if a.Kind != "leaf" || a.Val == in.Val || a.Path.String() != in.Path.String() {
+							continue
+						}
+						for _, enc := range c10Encs {
+							c.R.Add("evaluations", 1)
+							c.R.Add("transitions", 1)
+							sig, detail := c10Check(p, atoms, a, enc+"+shared")
+							if sig != "" {
+								c.R.Violation(sigFor(clauseOf(sig)+"@"+enc+"+shared", atoms)+" set "+shapeName(a), detail, c10Case{Pkg: p.Name, Atoms: atomNames(atoms), Set: a.Name, Enc: enc + "+shared"})
+								c.R.Outcome("violation")
+							} else {
+								c.R.Outcome("shared:" + detail)
+							}
+						}
+					}
+				}
+			})
+		}
 		// histories: three successive SetNode calls from the empty root, compared with the builder after each
 		foc := core.FocusAtoms(sets)
 		n := len(foc)
